@@ -58,7 +58,9 @@ Proof. split; [reflexivity|]. eexists. split; vm_compute; reflexivity. Qed.
    constant short-cut) plays the atom's piece; the guard allows at most one transformation-creating node (parallel
    channel / scalar arithmetic) on a path from the root (this excludes the known finding (ii) and, for now, nested
    arithmetic whose composition lemma is not proved) *)
-Theorem C01_denotes_relative : forall p env cm r,
+(* round 5: re-labelled `_partial` - `atoms_ok` is a hypothesis about the MODEL (what build_waveform does for the atoms of the
+   tree), not an executable guard; C01_atoms + C01_denotes below discharge it *)
+Theorem C01_denotes_relative_partial : forall p env cm r,
   atoms_ok (fun _ => True) p -> guard_single_trafo false p = true ->
   create_program p env cm None = Ok r ->
   exists pcs, denote_top p env cm = Ok pcs /\
@@ -66,7 +68,7 @@ Theorem C01_denotes_relative : forall p env cm r,
 Proof.
   intros p env cm r Hok Hg. apply (create_program_denote (fun _ => True)); auto.
 Qed.
-Print Assumptions C01_denotes_relative.
+Print Assumptions C01_denotes_relative_partial.
 
 Example C01_relative_hypothesis_satisfiable :
   atoms_ok (fun _ => True) (PRev (PSeq [PAtom (AConst (EC 0) [(ChS 1, EC 1)])])).
